@@ -18,6 +18,7 @@ RULE = (
     "all value trees of depth<=3 fan-out<=2; all concatenations of <=3 values from a 12-value alphabet; all sequences of <=6 (quick) / <=8 (thorough) reader cursor operations {peek, peek+skip, read, peek+read(header=), get_remaining_data} on one reader over 6 concatenated values, against an index as reference model. "
     "Each case: writer bytes == independent DER encoder, reader value == original, reader leaves exactly the suffix. "
     "Every enumerated value is distinct by construction; all are non-trivial (each executes writer and reader)."
+    ' Also every operation sequence of length <= 6 (thorough 7) on ASN1Writer objects over {open SEQUENCE / SET under any open writer (<= 3 children), write the next integer to any open writer, close any open child}, compared with a reference model of the writer (a child becomes one TLV of its parent at the moment it is closed).'
 )
 ASSUME = ["ref/der.py is a correct strict DER codec (self-checked on X.690 worked examples and the 17 Windows blobs)"]
 BOUND = {
